@@ -129,20 +129,29 @@ func batchSize(ops []wop) (int, bool) {
 
 type obs []string
 
-func modelObserve(s state, bufferBatchOnly bool) obs {
+func modelObserve(s state, what int) obs {
 	var o obs
 	for _, k := range K {
 		v, ok := s[k]
-		if ok {
-			o = append(o, "Get("+hx(k)+")=ok:"+hx(v), "GetCbFail("+hx(k)+")=cberr")
-		} else {
-			o = append(o, "Get("+hx(k)+")=notfound", "GetCbFail("+hx(k)+")=notfound")
+		if what&oGet != 0 {
+			if ok {
+				o = append(o, "Get("+hx(k)+")=ok:"+hx(v))
+			} else {
+				o = append(o, "Get("+hx(k)+")=notfound")
+			}
 		}
-		if !bufferBatchOnly {
+		if what&oGetFail != 0 {
+			if ok {
+				o = append(o, "GetCbFail("+hx(k)+")=cberr")
+			} else {
+				o = append(o, "GetCbFail("+hx(k)+")=notfound")
+			}
+		}
+		if what&oHas != 0 {
 			o = append(o, fmt.Sprintf("Has(%s)=%v", hx(k), ok))
 		}
 	}
-	if !bufferBatchOnly {
+	if what&oIter != 0 {
 		var sb strings.Builder
 		for _, k := range s.keys() {
 			sb.WriteString(hx(k) + "=" + hx(s[k]) + " ")
@@ -294,6 +303,7 @@ func progString(p []int) string {
 //     migration0000 and the gRPC cursor call Next on a fresh iterator);
 //   - Prev directly after a Seek that found nothing lands on the last pair (db/testutil.go "Seek past
 //     end then Prev lands on last key"; production: core/state/state_reader.go valueAt).
+//
 // A relative move in any other invalid position is outside the documented contract: its result (and
 // every relative move after it, until the next First/Seek) is recorded but never a violation.
 // Reading Key/Value of an invalid iterator is never compared.
